@@ -106,6 +106,8 @@ def run_case(desc):
         ok = True
         for a, b in streams.chunking(crng, n, {"small": "small", "large": "large"}.get(chunking, chunking)):
             cand = X[a:b]
+            if not is_bm and (desc["seed"] >> 21) % 4 == 0:
+                cand = cand.tolist()          # array-like means array-like: update must take what query took
             steps.begin()
             try:
                 if is_bm:
